@@ -138,6 +138,7 @@ func payloadUnderTag(c *Ctx, rule string) {
 		})
 	}
 	c.Analysed["payload_dereferences"] = n
+	payloadStableAcrossUserCode(c, rule)
 	if n < 30 {
 		c.undecided(rule, "instance-floor", "", fmt.Sprintf("%d payload dereferences found, 40 confirmed by hand", n))
 	}
@@ -492,5 +493,122 @@ func repeatGuards(c *Ctx, rule string) {
 	}
 	if n < 4 {
 		c.undecided(rule, "repeat-count instance-floor", "", fmt.Sprintf("%d Repeat calls found, 4 confirmed by hand (printf padding)", n))
+	}
+}
+
+// payloadStableAcrossUserCode: a tag test only vouches for a payload until user code runs. When a
+// payload (or a container member read through it) of a cell that outlives the call — a variable's
+// cell, a member cell — is read *again* after an evaluation call, the cell may meanwhile hold a
+// value of another kind (the body of `for (k, v in o)` may assign to o).
+func payloadStableAcrossUserCode(c *Ctx, rule string) {
+	p := c.P
+	c.note("%s payload-stable-across-user-code: in the evaluator, between a call that can run program code (evalStatement, evalExpr, evalRules, evalPatternRules, callFunction, evalExprList, evalAssignment, a native function) and a later dereference of Value.Str / Num / Bool / Obj of a cell that was obtained before that call, the cell's tag is tested again (on every path). Reads made once before a loop (Go's range over the slice / string / key list) are not affected.", rule)
+	userCode := func(call ssa.CallInstruction) bool {
+		f := call.Common().StaticCallee()
+		if f == nil {
+			// a native function value called through its field
+			return strings.Contains(call.Common().Value.Type().String(), "Evaluator")
+		}
+		switch shortName(f) {
+		case "(*lang.Evaluator).evalStatement", "(*lang.Evaluator).evalExpr", "(*lang.Evaluator).evalRules", "(*lang.Evaluator).evalPatternRules", "(*lang.Evaluator).callFunction", "(*lang.Evaluator).evalExprList", "(*lang.Evaluator).evalAssignment", "(*lang.Evaluator).evalBinaryExpr", "(*lang.Evaluator).evalUnaryExpr", "(*lang.Evaluator).evalCaseMatch":
+			return true
+		}
+		return false
+	}
+	n := 0
+	for _, fn := range p.Funcs {
+		if !p.InLang(fn) || p.inTestFile(fn) || fn.Signature.Recv() == nil || !strings.Contains(fn.Signature.Recv().Type().String(), "Evaluator") {
+			continue
+		}
+		var calls []ssa.CallInstruction
+		for _, call := range callsIn(fn) {
+			if userCode(call) {
+				calls = append(calls, call)
+			}
+		}
+		if len(calls) == 0 {
+			continue
+		}
+		allInstrs(fn, func(in ssa.Instruction) {
+			u, ok := in.(*ssa.UnOp)
+			if !ok || u.Op != token.MUL {
+				return
+			}
+			inner, ok := u.X.(*ssa.UnOp)
+			if !ok || inner.Op != token.MUL {
+				return
+			}
+			sf, okF := loadedField(inner)
+			if !okF || sf.Struct == nil || sf.Struct.Obj().Name() != "Value" || payloadTags[sf.Name] == nil {
+				return
+			}
+			// the cell (or value) the payload belongs to
+			root := stripLoads(sf.Base)
+			for {
+				if fa, ok := root.(*ssa.FieldAddr); ok {
+					root = stripLoads(fa.X)
+					continue
+				}
+				break
+			}
+			if _, local := root.(*ssa.Alloc); local {
+				return // a value built in this function: program code has no name for it
+			}
+			rootIn, isInstr := root.(ssa.Instruction)
+			baseR := strings.TrimPrefix(p.RenderShort(sf.Base), "&")
+			for _, call := range calls {
+				if ssa.Value(call.Value()) == root && call.Value() != nil {
+					continue // the cell is that call's own result
+				}
+				if isInstr && !dominatesInstr(rootIn, call) {
+					continue // the cell was obtained after (or independently of) this call
+				}
+				if !canReach(call, u) {
+					continue
+				}
+				// is the tag of the same cell read again on every path from the call to the dereference?
+				retest := map[*ssa.BasicBlock]bool{}
+				sameBlockRetest := false
+				allInstrs(fn, func(in2 ssa.Instruction) {
+					l, ok := in2.(*ssa.UnOp)
+					if !ok || l.Op != token.MUL {
+						return
+					}
+					if tf, ok := loadedField(l); ok && tf.Is("Value", "Tag") && strings.TrimPrefix(p.RenderShort(tf.Base), "&") == baseR {
+						if l.Block() == u.Block() && l.Block() == call.Block() {
+							if instrIndex(call) < instrIndex(l) && instrIndex(l) < instrIndex(u) {
+								sameBlockRetest = true
+							}
+							return
+						}
+						if l.Block() == u.Block() && instrIndex(l) > instrIndex(u) {
+							return
+						}
+						if l.Block() == call.Block() && instrIndex(l) < instrIndex(call) {
+							return
+						}
+						retest[l.Block()] = true
+					}
+				})
+				if sameBlockRetest || retest[u.Block()] {
+					continue
+				}
+				reach := false
+				if call.Block() == u.Block() && instrIndex(call) < instrIndex(u) {
+					reach = true
+				} else if reachableFrom(call.Block().Succs, retest)[u.Block()] {
+					reach = true
+				}
+				if !reach {
+					continue
+				}
+				n++
+				c.violated(rule, fmt.Sprintf("payload-after-user-code %s.%s in %s", baseR, sf.Name, shortName(fn)), p.InstrPos(u), fmt.Sprintf("*%s.%s is read again after %s (at %s) ran program code, without the tag of %s being tested again: the code may have assigned a value of another kind to that cell (e.g. `for (k, v in o) { o = 5 }`), and the pointer is then nil — a Go nil-pointer panic", baseR, sf.Name, calleeName(call.Common()), p.InstrPos(call), baseR))
+				return
+			}
+		})
+	}
+	if n == 0 {
+		c.ok(rule, "payload-after-user-code", "", "no payload of a surviving cell is read again after program code ran without a new tag test")
 	}
 }
